@@ -1,5 +1,6 @@
 import ScrapliModel.Channel.Chan
 import ScrapliModel.Channel.Rx
+import ScrapliProps.C01Platform
 open Scrapli Scrapli.Chan
 
 /-! Line protocol (fields separated by one blank):
@@ -11,7 +12,8 @@ open Scrapli Scrapli.Chan
   (what the real device printed after the real i-th write) — trace refinement.
   reply: per op `gp=<hex>` | `si=<raw>,<processed>` | `ii=<raw>,<processed>` | `stall`, joined by `;`,
   then ` W=<writes hexlist> A=<unread hex> H=<held-back hex>`.
-  `ansi <hex>` -> chanRead of one chunk;  `ansih <held hex> <chunk hex>` -> chanReadH (output, held);  `prb <depth> <hex>` -> processReadBuf. -/
+  `dev <prompt> <trail> <cmd=out|…> <writes hexlist>` -> what `LineDev.onWrite` prints for each write;
+  `linep iosxe <hex>` -> the line predicate of ScrapliProps/C01Platform.lean;  `ansi <hex>` -> chanRead of one chunk;  `ansih <held hex> <chunk hex>` -> chanReadH (output, held);  `prb <depth> <hex>` -> processReadBuf. -/
 
 def mkPat (r : Rx.Rx) : Pat := { search := Rx.searchB r, first := Rx.firstMatch r, sub := Rx.sub r }
 def neverPat : Pat := { search := fun _ => false, first := fun _ => none, sub := id }
@@ -87,6 +89,25 @@ def handleLine (line : String) : String :=
     match Hex.decode hh, Hex.decode h with
     | some held, some b => let r := chanReadH held b; s!"{Hex.encode r.1} {Hex.encode r.2}"
     | _, _ => "bad-op"
+  | ["dev", ph, th, tbl, ws] =>
+    -- the causal line device the theorems are about (`LineDev.onWrite`), folded over a list of writes
+    let parseTbl : Option (List (Bytes × Bytes)) :=
+      if tbl == "." then some [] else
+      (tbl.splitOn "|").mapM (fun e => match e.splitOn "=" with
+        | [a, b] => do pure ((← Hex.decode a), (← Hex.decode b))
+        | _ => none)
+    match Hex.decode ph, Hex.decode th, parseTbl, Hex.decodeList ws with
+    | some p, some t, some tb, some writes =>
+      let dv : LineDev := { out := fun l => match tb.find? (fun e => e.1 == strip l) with
+                                            | some e => e.2
+                                            | none => [],
+                            prompt := p, trail := t }
+      let r := writes.foldl (fun (acc : Bytes × List Bytes) w =>
+        let x := dv.onWrite acc.1 w
+        (x.1, acc.2 ++ [x.2])) ([], [])
+      Hex.encodeList r.2
+    | _, _, _, _ => "bad-op"
+  | ["linep", "iosxe", h] => match Hex.decode h with | some b => (if iosxeP b then "1" else "0") | none => "bad-op"
   | ["prb", d, h] =>
     match d.toNat?, Hex.decode h with
     | some d, some b => Hex.encode (processReadBuf d b)
